@@ -41,7 +41,8 @@ m = {
                            "4022942 verif hooks: pause point invoke.beforeHandlerMutex (no-op without -tags verif)",
                            "0783417 verif hook: reset.serverCleared pause point (no-op without the verif build tag)",
                            "8d65690 verif hook: rapi.next pause point at the top of the /runtime/invocation/next handler (no-op without the verif build tag)",
-                           "93e7b60 verif hook: fastinvoke.success pause point (no-op without the verif build tag)"],
+                           "93e7b60 verif hook: fastinvoke.success pause point (no-op without the verif build tag)",
+                           "46aff5c verif hook: frontend.lazyInit pause point (no-op without the verif build tag)"],
         "add_only": True,
     },
     "engines": engines,
